@@ -1,6 +1,6 @@
 // unit int_fmt_dword: integer/src/fmt/non_power_two.rs PreparedDword::new (C07): the digits stored for a double word
 // (three parts separated by range_per_word, each printed through the closure `get_digit`) are exactly its positional
-// digits in the radix, without a leading zero.
+// digits in the radix, without a leading zero; PreparedDword::write passes exactly these digits on.
 // Trusted: lib/codecs_fmt_stubs.rs (struct mirrors, radix_info, num_modular PreMulInv1by1::div_rem),
 // lib/div_word_stubs.rs (num_modular Normalized2by1Divisor::div_rem_2by1); shl_dword / double_word are seen through the
 // contracts PROVED in units int_shift / int_prim (//@@ SIG); rule D24 (closure inlining, engine/lower.py).
@@ -14,10 +14,13 @@ verus! {
 //@@ INCLUDE lib/codecs_fmt_stubs.rs
 //@@ INCLUDE lib/codecs_digit_lemmas.rs
 //@@ INCLUDE lib/fmtl_dword_lemmas.rs
+//@@ INCLUDE lib/codecs_writer_stub.rs
 //@@ SIG integer/math/shl_dword.rs
 //@@ SIG integer/primitive/double_word.rs
 impl PreparedDword {
 //@@ FN integer/fmt_large/dword_new.rs drop_asserts=0
 }
+// PreparedDword::write: passes exactly digits[start_index..] to the digit writer
+//@@ FN integer/fmt_large/dword_write.rs
 } // verus!
 fn main() {}
